@@ -45,9 +45,9 @@ def acceptable (c : Char) : Bool := Generated.acceptableVars.toList.contains c
 
 /-- `VariableEnvironment.is_var` (after the `fix:` rejecting "" and "$") -/
 def isVar (name : Str) (canBeSys : Bool) : Bool :=
-  if name == [] || name == ['$'] then false else
   match name with
   | [] => false
+  | ['$'] => false
   | c :: rest =>
     (if c == '$' then canBeSys else (!isDigitC c && acceptable c)) && rest.all acceptable
 
